@@ -900,3 +900,32 @@ Proof.
   - apply (dir_support_In nc k i Hk Ho) in Hin. apply Hin.
   - intros Hq' Hn. exact (dir_support_nearest nc k i Hk Hke Hi Ho q o q' Hin Hq' Hn).
 Qed.
+
+(* ================================================================================================
+   7. R = c * P^T, entry by entry (TransferMesh: Rspace = restr_factor * Pspace.T)                  *)
+Lemma In_combine3_nth (P : list (list dy)) j : (j < length P)%nat ->
+  In ((j, j), nth j P []) (combine (combine (seq 0 (length P)) (seq 0 (length P))) P).
+Proof.
+  intros Hj.
+  assert (E : ((j, j), nth j P []) = nth j (combine (combine (seq 0 (length P)) (seq 0 (length P))) P) ((0%nat, 0%nat), [])).
+  { rewrite combine_nth by (rewrite combine_length, seq_length; lia).
+    rewrite combine_nth by (rewrite !seq_length; reflexivity).
+    rewrite seq_nth by lia. reflexivity. }
+  rewrite E. apply nth_In. rewrite !combine_length, !seq_length. lia.
+Qed.
+
+Theorem scaled_transpose_sound R P c :
+  check_scaled_transpose R P c = true ->
+  forall i j, (i < length R)%nat -> (j < length P)%nat ->
+  (D2Q (nth j (nth i R []) d0) == D2Q c * D2Q (nth i (nth j P []) d0))%Q.
+Proof.
+  unfold check_scaled_transpose. intros H i j Hi Hj.
+  apply andb_prop in H as [H _]. rewrite forallb_forall in H.
+  assert (Hin : In (i, nth i R []) (combine (seq 0 (length R)) R)).
+  { assert (E : (i, nth i R []) = nth i (combine (seq 0 (length R)) R) (0%nat, [])).
+    { rewrite combine_nth by (rewrite seq_length; reflexivity). rewrite seq_nth by lia. reflexivity. }
+    rewrite E. apply nth_In. rewrite combine_length, seq_length. lia. }
+  specialize (H _ Hin). cbn [fst snd] in H. apply andb_prop in H as [H _]. rewrite forallb_forall in H.
+  specialize (H _ (In_combine3_nth P j Hj)). cbn [fst snd] in H.
+  apply deqb_spec in H. rewrite H, D2Q_mul. reflexivity.
+Qed.
